@@ -2,7 +2,7 @@
    Print Assumptions; the statements are pinned here so they cannot be quietly weakened. *)
 From FB Require Import C02.Model C02.Encode C02.Theory1 C02.Theory2 C02.Theory3 C02.Theory4 C02.Theory5
   C02.Theory6 C02.Theory7 C02.Theory8 C02.Theory9 C02.Frames C02.TheoryF C02.Gen
-  C02.Class C02.Decode C02.Facts C02.TheoryC1 C02.TheoryC2 C02.TheoryC3 C02.TheoryC4 C02.TheoryC5 C02.TheoryC6 C02.TheoryC7 C02.TheoryC8 C02.TheoryC9 C02.TheoryC10 C02.TheoryC11 C02.TheoryG.
+  C02.Class C02.Decode C02.Facts C02.TheoryC1 C02.TheoryC2 C02.TheoryC3 C02.TheoryC4 C02.TheoryC5 C02.TheoryC6 C02.TheoryC7 C02.TheoryC8 C02.TheoryC9 C02.TheoryC10 C02.TheoryC11 C02.TheoryG C02.Expand C02.TheoryE.
 Local Open Scope Z_scope.
 
 (* ---------- termination of the branch-offset fixpoint ---------- *)
@@ -234,6 +234,50 @@ Theorem C02_frames_example :
     dec_stack_map bs = Some [(0, DSame); (6, DAppend [DObject 9; DUninit 0]); (7, DFull [DSimple 1] [DSimple 4; DObject 12])].
 Proof. exact frames_example. Qed.
 Print Assumptions C02_frames_example.
+
+(* ---------- expand: the long form of a conditional as an explicit pair of instructions ---------- *)
+(* expand chs b fresh replaces every conditional that has the long form under chs by three entries: the
+   inverted conditional with a fresh label as target, goto_w to the original target, and a zero-length
+   entry that carries the fresh label.  The expanded body, under forms in which no conditional is long,
+   and with the label positions of its own layout, encodes to the same bytes; the labels of the tree keep
+   their positions. *)
+Theorem C02_expand_is_encode : forall b last chs fresh w,
+  below fresh b last = true ->
+  encode chs (labpos chs 0 b last) 0 b = Some w ->
+  let b' := fst (expand chs b fresh) in
+  let c' := snd (expand chs b fresh) in
+  let L' := labpos c' 0 b' last in
+  encode c' L' 0 b' = Some w /\
+  (forall l, (l < fresh)%N -> L' l = labpos chs 0 b last l) /\
+  (forall k lb op inv l, nth_error b' k = Some (lb, Br (KCond op inv) l) -> nth_error c' k = Some false).
+Proof. exact expand_is_encode. Qed.
+Print Assumptions C02_expand_is_encode.
+
+(* write_is_encode with body' = expand W body: what write_code emits is the encoding of the expanded body *)
+Theorem C02_write_is_encode_expanded : forall b last w labs W fresh,
+  unique_labels b last -> below fresh b last = true ->
+  wc_loop (S (length b)) [] b last = Some (OK (w, labs, W)) ->
+  let chs := chs_run W 0%N 0 [] b in
+  let b' := fst (expand chs b fresh) in
+  let c' := snd (expand chs b fresh) in
+  let L' := labpos c' 0 b' last in
+  encode c' L' 0 b' = Some w /\
+  (forall l, (l < fresh)%N -> L' l = lget labs l) /\
+  (forall k lb op inv l, nth_error b' k = Some (lb, Br (KCond op inv) l) -> nth_error c' k = Some false).
+Proof. exact write_is_encode_expanded. Qed.
+Print Assumptions C02_write_is_encode_expanded.
+
+Theorem C02_expand_example :
+  below 10%N exe_body None = true /\
+  expand [true; false; false] exe_body 10%N =
+    ([(Some 1%N, Br (KCond 154 153) 10%N); (None, Br (KJump 167 200) 2%N); (Some 10%N, Plain []); (None, Plain [0]%N); (Some 2%N, Plain [177]%N)],
+     [false; true; false; false; false]) /\
+  encode [true; false; false] (labpos [true; false; false] 0 exe_body None) 0 exe_body = Some [154; 0; 8; 200; 0; 0; 0; 6; 0; 177]%N /\
+  encode [false; true; false; false; false]
+    (labpos [false; true; false; false; false] 0 (fst (expand [true; false; false] exe_body 10%N)) None) 0
+    (fst (expand [true; false; false] exe_body 10%N)) = Some [154; 0; 8; 200; 0; 0; 0; 6; 0; 177]%N.
+Proof. exact expand_example. Qed.
+Print Assumptions C02_expand_example.
 
 (* ---------- the whole class ---------- *)
 (* write_class_aux (C02/Class.v) is the model of duke::write_class: magic, version, the pool (emitted
